@@ -17,6 +17,10 @@ import (
 type Faults struct {
 	// batch call level
 	Batch429, Batch5xx, Batch4xx, BatchBadJSON, BatchHashAlgo, BatchWrongTransfer int
+	// PostRedirect: an API POST (batch, verify) is answered with a 307/308
+	// to the same URL with a marker in the query; the redirected copy is
+	// then served normally
+	PostRedirect int
 	// BatchCorrupt: one single-field corruption of an otherwise valid response
 	BatchCorrupt int
 	// ObjForeign: an extra entry for an object requested in an earlier batch
@@ -270,9 +274,29 @@ func (s *LFSServer) Serve(rec *ReqRec) *Resp {
 			origin = s.StorageOrigin
 		}
 	}
+	redirect := func(kind string) *Resp {
+		if s.F.PostRedirect == 0 || rec.Method != "POST" || strings.Contains(rec.Query, "via=redirect") {
+			return nil
+		}
+		key := kind + "-redirect:" + rec.Path + "|" + string(rec.Body)
+		if !s.hit(key, s.F.PostRedirect, "api.redirect") {
+			return nil
+		}
+		r := NewResp([]int{307, 308}[s.C.Choose(key, 2, "redirect-status")])
+		loc := rec.Path + "?via=redirect"
+		if s.C.Choose(key, 2, "redirect-absolute") == 1 {
+			loc = rec.Scheme + "://" + rec.Host + loc
+		}
+		r.Header.Set("Location", loc)
+		r.Note = "api.redirect " + loc
+		return r
+	}
 	switch {
 	case origin == s.APIOrigin && rec.Path == s.APIPrefix+"/objects/batch":
 		rec.Kind = "batch"
+		if r := redirect("batch"); r != nil {
+			return r
+		}
 		return s.serveBatch(rec)
 	case origin == s.APIOrigin && strings.HasPrefix(rec.Path, s.APIPrefix+"/locks"):
 		rec.Kind = "locks"
@@ -282,6 +306,9 @@ func (s *LFSServer) Serve(rec *ReqRec) *Resp {
 		return JSONResp(404, []byte(`{"message":"locks not implemented"}`))
 	case origin == s.APIOrigin && strings.HasPrefix(rec.Path, s.APIPrefix+"/verify/"):
 		rec.Kind = "verify"
+		if r := redirect("verify"); r != nil {
+			return r
+		}
 		return s.serveVerify(rec)
 	case origin == s.StorageOrigin && strings.HasPrefix(rec.Path, "/objects/"):
 		oid := strings.TrimPrefix(rec.Path, "/objects/")
@@ -579,7 +606,7 @@ func (s *LFSServer) findOffer(rec *ReqRec, rel, oid string) *Offer {
 		// A request following a deliberately corrupted response cannot
 		// be judged against what was offered.
 		for _, t := range s.Offers {
-			if t.Tainted && (t.Href == rec.URL || (t.Oid == oid && oid != "")) {
+			if t.Tainted && (t.Href == rec.URL || t.Href == strings.TrimSuffix(rec.URL, "?via=redirect") || (t.Oid == oid && oid != "")) {
 				return nil
 			}
 		}
@@ -594,7 +621,8 @@ func (s *LFSServer) findOffer(rec *ReqRec, rel, oid string) *Offer {
 	if o.Rel != rel || (rel != "verify" && o.Oid != oid) {
 		s.Problems = append(s.Problems, fmt.Sprintf("req#%d %s %s uses action %s offered for %s %s", rec.Seq, rec.Method, rec.URL, tok, o.Rel, o.Oid))
 	}
-	if rec.URL != o.Href {
+	// (the copy of a request this server redirected carries its marker)
+	if rec.URL != o.Href && strings.TrimSuffix(rec.URL, "?via=redirect") != o.Href {
 		s.Problems = append(s.Problems, fmt.Sprintf("req#%d %s %s: action %s was offered with href %s", rec.Seq, rec.Method, rec.URL, tok, o.Href))
 	}
 	for k, v := range o.Header {
